@@ -31,6 +31,15 @@ type target struct {
 	Result string            `json:"result"` // Go type of the (first) result
 	Consts []constSrc        `json:"consts"` // files whose iota const blocks may be referenced (as pkg.Name)
 	IntParams map[string]string `json:"int_params"` // parameters of named integer types: name -> underlying go type
+	// second translator (stateful.go)
+	Mode       string         `json:"mode"`        // "" = loop-free pure function (first translator); "stateful"; "pure2" = pure function with loops/locals
+	State      []fieldSpec    `json:"state"`       // receiver fields that are read and assigned, in tuple order
+	Effects    map[string]int `json:"effects"`     // "c.bw.writeBits" -> event id
+	DropResult bool           `json:"drop_result"` // do not translate the returned values (state and events only)
+	IgnoreVars []string       `json:"ignore_vars"` // locals that only feed dropped results
+	Fuel       int            `json:"fuel"`        // loop fuel (default 70)
+	NamedTypes map[string]string `json:"named_types"` // named integer types -> underlying, e.g. "bit" -> "bool"
+	Results    []string       `json:"-"`
 }
 
 type constSrc struct {
@@ -42,6 +51,20 @@ type env struct {
 	types  map[string]string // variable -> go type
 	fields map[string]string
 	consts map[string]string // "pkg.Name" -> decimal value
+	named  map[string]string // named types -> underlying
+}
+
+func (v *env) normType(t string) string {
+	if u, ok := v.named[t]; ok {
+		return u
+	}
+	if t == "byte" {
+		return "uint8"
+	}
+	if t == "float64" {
+		return "uint64" // a float64 is carried as its bit pattern (math.Float64bits is the identity)
+	}
+	return t
 }
 
 // values of simple iota const blocks: `Name T = iota` followed by bare names, or integer literals
@@ -65,6 +88,12 @@ func loadConsts(repo string, srcs []constSrc) map[string]string {
 					switch v := vs.Values[0].(type) {
 					case *ast.Ident:
 						usesIota = v.Name == "iota"
+						if v.Name == "true" || v.Name == "false" {
+							for _, n := range vs.Names {
+								out[c.Pkg+"."+n.Name] = v.Name
+							}
+							continue
+						}
 					case *ast.BasicLit:
 						usesIota = false
 						if v.Kind == token.INT {
@@ -95,7 +124,7 @@ func loadConsts(repo string, srcs []constSrc) map[string]string {
 func fail(f string, a ...interface{}) { fmt.Fprintf(os.Stderr, "gotrans: "+f+"\n", a...); os.Exit(1) }
 
 var widths = map[string]string{
-	"uint64": "wrap_u64", "uint32": "wrap_u32", "uint16": "wrap_u16", "uint8": "wrap_u8", "uint": "wrap_u64",
+	"uint64": "wrap_u64", "uint32": "wrap_u32", "uint16": "wrap_u16", "uint8": "wrap_u8", "uint": "wrap_u64", "byte": "wrap_u8",
 	"int64": "wrap_i64", "int32": "wrap_i32", "int16": "wrap_i16", "int8": "wrap_i8", "int": "wrap_i64",
 }
 
@@ -125,6 +154,12 @@ func (v *env) expr(e ast.Expr, want string) (string, string) {
 		}
 		t, ok := v.types[x.Name]
 		if !ok {
+			if cv, ok := v.consts["."+x.Name]; ok {
+				if cv == "true" || cv == "false" {
+					return cv, "bool"
+				}
+				return cv, ""
+			}
 			fail("unknown identifier %s", x.Name)
 		}
 		return x.Name, t
@@ -169,11 +204,34 @@ func (v *env) expr(e ast.Expr, want string) (string, string) {
 		}
 		fail("unsupported unary operator %s", x.Op)
 	case *ast.CallExpr:
-		if id, ok := x.Fun.(*ast.Ident); ok && isInt(id.Name) && len(x.Args) == 1 {
-			a, _ := v.expr(x.Args[0], id.Name)
-			return "(" + widths[id.Name] + " " + a + ")", id.Name
+		if id, ok := x.Fun.(*ast.Ident); ok && isInt(v.normType(id.Name)) && len(x.Args) == 1 {
+			tn := v.normType(id.Name)
+			a, _ := v.expr(x.Args[0], "")
+			return "(" + widths[tn] + " " + a + ")", tn
 		}
-		fail("unsupported call")
+		if selKey(x.Fun) == "math.Float64bits" && len(x.Args) == 1 {
+			a, t := v.expr(x.Args[0], "uint64")
+			if t != "uint64" {
+				fail("math.Float64bits of a non-float")
+			}
+			return a, "uint64"
+		}
+		if id, ok := x.Fun.(*ast.Ident); ok {
+			if sg, ok := sigs[id.Name]; ok && !sg.stateful && !sg.effects {
+				var args []string
+				k := 0
+				for i, a := range x.Args {
+					if !sg.keep[i] {
+						continue
+					}
+					ev, _ := v.expr(a, sg.ptypes[k])
+					args = append(args, ev)
+					k++
+				}
+				return "(" + sg.name + " " + strings.Join(args, " ") + ")", sg.results[0]
+			}
+		}
+		fail("unsupported call %s", selKey(x.Fun))
 	case *ast.BinaryExpr:
 		switch x.Op {
 		case token.LAND, token.LOR:
@@ -185,6 +243,15 @@ func (v *env) expr(e ast.Expr, want string) (string, string) {
 			}
 			return "(" + a + " " + op + " " + b + ")", "bool"
 		case token.LSS, token.LEQ, token.GTR, token.GEQ, token.EQL, token.NEQ:
+			if id, ok := x.X.(*ast.Ident); ok && v.types[id.Name] == "error" && isNilIdent(x.Y) {
+				// errors of effect calls are nil by assumption (see stateful.go)
+				if x.Op == token.NEQ {
+					return "false", "bool"
+				}
+				if x.Op == token.EQL {
+					return "true", "bool"
+				}
+			}
 			a, ta := v.expr(x.X, "")
 			b, tb := v.expr(x.Y, "")
 			if ta != "" && tb != "" && ta != tb {
@@ -213,9 +280,67 @@ func (v *env) expr(e ast.Expr, want string) (string, string) {
 			default:
 				return "(negb (" + a + " =? " + b + "))", "bool"
 			}
-		case token.ADD, token.SUB, token.MUL, token.QUO, token.REM:
+		case token.SHL, token.SHR:
+			a, ta := v.expr(x.X, want)
+			b, tb := v.expr(x.Y, "")
+			if tb != "" && signed(tb) {
+				fail("signed shift count")
+			}
+			if ta == "" && tb != "" { // untyped constant shifted by a variable: takes the type of the context
+				ta = want
+				if ta == "" || !isInt(ta) {
+					fail("shift of an untyped constant by a variable without a context type")
+				}
+			}
+			op := "Z.shiftl"
+			if x.Op == token.SHR {
+				op = "Z.shiftr"
+			}
+			if ta == "" {
+				return "(" + op + " " + a + " " + b + ")", ""
+			}
+			return "(" + widths[ta] + " (" + op + " " + a + " " + b + "))", ta
+		case token.AND, token.OR, token.XOR, token.AND_NOT:
 			a, ta := v.expr(x.X, want)
 			b, tb := v.expr(x.Y, want)
+			if ta == "bool" || tb == "bool" {
+				fail("bit operation on bool")
+			}
+			t := ta
+			if t == "" {
+				t = tb
+			}
+			if ta != "" && tb != "" && ta != tb {
+				fail("bit operation on %s and %s", ta, tb)
+			}
+			var op string
+			switch x.Op {
+			case token.AND:
+				op = "Z.land " + a + " " + b
+			case token.OR:
+				op = "Z.lor " + a + " " + b
+			case token.XOR:
+				op = "Z.lxor " + a + " " + b
+			default:
+				op = "Z.ldiff " + a + " " + b
+			}
+			if t == "" {
+				return "(" + op + ")", ""
+			}
+			return "(" + widths[t] + " (" + op + "))", t
+		case token.ADD, token.SUB, token.MUL, token.QUO, token.REM:
+			var a, ta, b, tb string
+			switch { // e.g. 1<<n + i : the constant shift takes the type of i
+			case isUntypedShift(x.X) && !isUntypedShift(x.Y):
+				b, tb = v.expr(x.Y, want)
+				a, ta = v.expr(x.X, tb)
+			case isUntypedShift(x.Y):
+				a, ta = v.expr(x.X, want)
+				b, tb = v.expr(x.Y, ta)
+			default:
+				a, ta = v.expr(x.X, want)
+				b, tb = v.expr(x.Y, want)
+			}
 			t := ta
 			if t == "" {
 				t = tb
@@ -253,6 +378,23 @@ func (v *env) expr(e ast.Expr, want string) (string, string) {
 	}
 	fail("unsupported expression %T", e)
 	return "", ""
+}
+
+func isUntypedShift(e ast.Expr) bool {
+	for {
+		p, ok := e.(*ast.ParenExpr)
+		if !ok {
+			break
+		}
+		e = p.X
+	}
+	b, ok := e.(*ast.BinaryExpr)
+	if !ok || (b.Op != token.SHL && b.Op != token.SHR) {
+		return false
+	}
+	_, lit := b.X.(*ast.BasicLit)
+	_, litY := b.Y.(*ast.BasicLit)
+	return lit && !litY
 }
 
 func typeNameOfSel(x *ast.SelectorExpr) string {
@@ -372,7 +514,7 @@ func main() {
 	}
 	var sb strings.Builder
 	sb.WriteString("(* GENERATED by gotrans from " + repo + " on every run. Do not edit, do not commit. *)\n")
-	sb.WriteString("From Coq Require Import ZArith Bool.\nOpen Scope Z_scope.\n\n")
+	sb.WriteString("From Coq Require Import ZArith Bool List.\nImport ListNotations.\nOpen Scope Z_scope.\n\n")
 	sb.WriteString("Definition wrap_u (k : Z) (z : Z) : Z := z mod 2 ^ k.\n")
 	sb.WriteString("Definition wrap_s (k : Z) (z : Z) : Z := (z + 2 ^ (k - 1)) mod 2 ^ k - 2 ^ (k - 1).\n")
 	for _, w := range []string{"8", "16", "32", "64"} {
@@ -400,7 +542,15 @@ func main() {
 		if fd == nil {
 			fail("function %s (receiver %q) not found in %s", t.Func, t.Recv, t.File)
 		}
-		v := &env{types: map[string]string{}, fields: t.Fields, consts: loadConsts(repo, t.Consts)}
+		v := &env{types: map[string]string{}, fields: t.Fields, consts: loadConsts(repo, t.Consts), named: t.NamedTypes}
+		if v.fields == nil {
+			v.fields = map[string]string{}
+		}
+		if t.Mode == "stateful" || t.Mode == "pure2" {
+			tt := t
+			sb.WriteString(translateStateful(&tt, fd, v))
+			continue
+		}
 		var params []string
 		seen := map[string]bool{}
 		addParam := func(name, typ string) {
